@@ -102,6 +102,16 @@ type Action struct {
 	Via string `json:"via,omitempty"`
 	// damage_cache: one base64 character changed (xor Mask on its 6-bit value)
 	Mask int `json:"mask,omitempty"`
+	// boot: the broker's Do (which runs its event loop) is not started with the
+	// server's but by a later start_iob step (or when the boot is stopped):
+	// main starts the two concurrently, so any delay between them is a legal
+	// schedule
+	LateIOB bool `json:"late_iob,omitempty"`
+	// open_*: a new session's ID is brought to this many bytes (late.go)
+	Long int `json:"long,omitempty"`
+	// squeeze_c: N requests for /c while the process may open only Margin more
+	// descriptors than it has open already (squeeze.go)
+	Margin int `json:"margin,omitempty"`
 }
 
 func (a Action) String() string {
@@ -136,6 +146,8 @@ type boot struct {
 	checked      int
 	cacheExisted bool
 	cacheJudged  bool
+	iobStarted   bool  // the broker's Do has been started
+	lastLinger   int64 // when a client was last seen to be still there after the one shell had gone
 }
 
 type session struct {
@@ -678,6 +690,9 @@ func (s *sim) canon(t string) string {
 		if len(id) > 8 {
 			t = strings.ReplaceAll(t, id[:len(id)-1], fmt.Sprintf("ID#%d<", i))
 		}
+		if len(id) > 8 {
+			t = strings.ReplaceAll(t, otherFirstByte(id)[1:], fmt.Sprintf("ID#%d~", i))
+		}
 	}
 	t = strings.ReplaceAll(t, s.dir, "$S")
 	// script IDs the harness never got to see (random base-36 words): mask
@@ -752,12 +767,11 @@ func (s *sim) doBoot(a Action) {
 	b.ctx, b.cancel = context.WithCancel(context.Background())
 	s.boot = b
 	s.boots = append(s.boots, b)
-	go func() {
-		_ = iob.Do(b.ctx)
-		s.mu.Lock()
-		b.iobRet = true
-		s.mu.Unlock()
-	}()
+	if a.LateIOB {
+		s.probes["boots_with_late_broker"]++
+	} else {
+		s.startIOB(b)
+	}
 	go func() {
 		err := svr.Do(b.ctx)
 		s.mu.Lock()
@@ -774,6 +788,12 @@ func (s *sim) doStop() {
 	b := s.boot
 	if b == nil {
 		return
+	}
+	if !b.iobStarted {
+		// at the latest now the broker's Do gets to run (no waiting for
+		// quiescence here: a stream whose peer has just gone keeps net/http
+		// busy until its own client has gone too, which is what comes next)
+		s.lateStartIOB(b)
 	}
 	for _, c := range s.clients {
 		c.closeConn(false)
